@@ -14,11 +14,13 @@ RULE = ("Engine F: generated factories (1-3 sources, 0-2 machine layers with fan
         "pallet. Finite inputs without combiner and with FIRST_AVAILABLE fan-in are run on to quiescence: everything "
         "generated is received or discarded. Non-trivial: fan-in, fan-out or a pack line, and some edge was full at least once.")
 RULE += (" Three in ten flow-shaped factories also contain rework loops (a machine feeding itself or a machine of an earlier layer through a "
-         "Buffer / Fleet edge with a strictly positive delay / transit time, so no zero-time cycle exists); machine oracles work per visit, not per item.")
+         "Buffer / Fleet edge with a strictly positive delay / transit time, so no zero-time cycle exists); machine oracles work per visit, not per item. "
+         "One in ten factories is a chain or a rows x cols mesh built by the helpers of factorysimpy.constructs (the harness hands them factories "
+         "as node / edge classes and checks the wiring they produce against the documented topology).")
 ASSUMPTIONS = ["items become visible at their first put; the source-side term uses the source's counters",
                "a discarded pallet keeps its packed items (they stay 'packed')"]
 
-PROFILE = {"conveyors": True, "conveyor_to_sink": True, "pack": 3, "cycles": 3}
+PROFILE = {"conveyors": True, "conveyor_to_sink": True, "pack": 3, "cycles": 3, "constructs": 1}
 
 
 def examples(tier):
